@@ -4,6 +4,7 @@ import (
 	"context"
 	"fmt"
 	"strings"
+	"time"
 
 	"pgregory.net/rapid"
 
@@ -68,7 +69,26 @@ func GenConflictCase(rt *rapid.T) *ConflictCase {
 	return c
 }
 
+// RunConflict runs the case under a watchdog: a pubkey cache that loops or recurses without end (both
+// have happened) is a verdict ("conflict/blocked"), not a hung check.
 func RunConflict(c *ConflictCase) (out ConflictResult) {
+	var res ConflictResult
+	err, panicked, blocked := GuardTimeout(120*time.Second, func() error {
+		res = runConflict(c)
+		return nil
+	})
+	switch {
+	case err == ErrPoisoned:
+		return ConflictResult{}
+	case blocked:
+		return ConflictResult{Sig: "conflict/blocked", Msg: fmt.Sprintf("two chains sharing a pubkey cache (%+v): a library call did not return within 120 s", *c)}
+	case panicked:
+		return ConflictResult{Sig: "conflict/panic", Msg: fmt.Sprintf("%v", err)}
+	}
+	return res
+}
+
+func runConflict(c *ConflictCase) (out ConflictResult) {
 	far := refspec.FarFutureEpoch
 	o := map[string]uint64{"SLOTS_PER_EPOCH": 4, "TARGET_COMMITTEE_SIZE": 2, "MAX_COMMITTEES_PER_SLOT": 2, "SHUFFLE_ROUND_COUNT": 3,
 		"SLOTS_PER_HISTORICAL_ROOT": 8, "EPOCHS_PER_HISTORICAL_VECTOR": 8, "EPOCHS_PER_SLASHINGS_VECTOR": 4, "EPOCHS_PER_ETH1_VOTING_PERIOD": 1,
